@@ -15,6 +15,7 @@ import extract  # noqa: E402
 d = extract.ensure_facts(["default"])
 facts = core.Facts(d["default"])
 out = {}
+consts = {}
 for crate in extract.WORKSPACE_CRATES + ["verif_harness"]:
     fns = {}
     for b in facts.bodies(crate):
@@ -22,5 +23,7 @@ for crate in extract.WORKSPACE_CRATES + ["verif_harness"]:
             names = [p.get("name") if p.get("k") == "pbind" else None for p in b.get("params", [])]
             fns[b["path"]] = names if b["path"] not in fns else None   # duplicate paths (cfg twins): names unknown
     out[crate] = fns
+    consts[crate] = sorted(i["path"] for i in facts.items(crate) if i["dk"] in ("Const", "AssocConst", "Static"))
 json.dump(out, open(os.path.join(HERE, "spec", "reference_functions.json"), "w"), indent=0, sort_keys=True)
+json.dump(consts, open(os.path.join(HERE, "spec", "reference_consts.json"), "w"), indent=0, sort_keys=True)
 print({k: len(v) for k, v in out.items()})
